@@ -5,8 +5,9 @@ O1: SynLik.tla (synthetic likelihoods on small integer data: table consistency, 
     positive-definiteness test, "whitening leaves the likelihood unchanged"), BslMh.tla (transform lattice:
     inverse, Jacobian = derivative, reciprocity, detailed balance; negative controls: pre-F17 sign, ratio without
     Jacobian), BslRound.tla (ModelBased/BSL round machine under an adversarial client: no simulation for
-    out-of-support proposals, chain length, rounds aligned; negative controls: _allow_submit without the round
-    gate, simulate-then-reject).
+    out-of-support proposals, chain length, rounds aligned, the current side of every ratio is the posterior of
+    the current state (stored log-prior copied on rejection); negative controls: _allow_submit without the round
+    gate, simulate-then-reject, log-prior not copied in a robust run).
 O3: * the static transform helpers on the lattice and on random points, the Jacobian helper, and
       BSL._get_mh_ratio() on sampler states constructed at the statement's observation point, with the
       arguments the Jacobian helper receives recorded by a harness subclass          -> BslMh_Trace.tla
@@ -16,7 +17,10 @@ O3: * the static transform helpers on the lattice and on random points, the Jaco
       operations that log what they are asked: "scripted" runs (a scripted generator object in place of
       sampler.random_state puts every proposal and every uniform draw on the exact lattice, so TLC
       recomputes every accept / reject decision) and "seeded" runs (elfi's own RandomState, real noisy
-      simulator, real gaussian_syn_likelihood), natively and through the scheduled client
+      simulator, real gaussian_syn_likelihood; and robust runs with syn_likelihood_misspec 'mean' / 'variance'
+      and its gamma sampler under narrow uniform priors), natively and through the scheduled client; in seeded
+      runs a recording subclass logs the two log-posteriors entering every MH ratio with oracle fields
+      (likelihood / gamma-sampler values, scipy prior log density of each state)
                                                                                         -> BslRound_Trace.tla
 TLC decides every verdict; the Fraction arithmetic below only GENERATES inputs (lattice points as floats).
 """
@@ -238,7 +242,7 @@ def mh_scenarios(ctx):
         for e1 in pts:
             for e2 in pts:
                 for (a, b) in itertools.product(posts, repeat=2):
-                    if not ctx.quick or rnd.random() < 0.34:
+                    if not ctx.quick or rnd.random() < 0.25:
                         items.append(dict(ev="mh", pE=[q(e1)], cE=[q(e2)], pq=q(a), cq=q(b), cz=False, tb=True))
                 items.append(dict(ev="mh", pE=[q(e1)], cE=[q(e2)], pq=q(posts[0]), cq=[1, 1], cz=True, tb=True))
             items.append(dict(ev="mh", pE=[q(e1)], cE=[q(pts[0])], pq=q(posts[1]), cq=q(posts[2]), cz=False, tb=False))
@@ -498,7 +502,7 @@ def lik_scenarios(ctx):
             for y in ((1, 5) if ctx.quick else (0, 1, 2, 5)):
                 small.append(dict(x=[[v] for v in xs], y=[y], s=1, d=1))
     # (2) random 1-D / 2-D data, scales 1, 2, 4
-    n_rand = 400 if ctx.quick else 3000
+    n_rand = 320 if ctx.quick else 3000
     for _ in range(n_rand):
         d = rnd.choice([1, 2, 2])
         n = rnd.randint(d + 3, 8)
@@ -586,12 +590,12 @@ class LogPrior:
                 i = self.lat.index(v)
                 pr = self.lat.pr[i - 1] if i else Fraction(0)
                 out[j] = math.log(pr) if pr > 0 else -INF
-                self.log.append(("q", self.k, i, q(pr)))
+                self.log.append(("q", self.k, i, q(pr), out[j]))
             else:
+                import scipy.stats as ss
                 i = self.lat.index(v, create=True)
-                inside = self.lat.lo < v < self.lat.hi
-                out[j] = -math.log(self.lat.hi - self.lat.lo) if inside else -INF
-                self.log.append(("q", self.k, i, [1, 1] if inside else [0, 1]))
+                out[j] = float(ss.uniform(self.lat.lo, self.lat.hi - self.lat.lo).logpdf(v))
+                self.log.append(("q", self.k, i, [1, 1] if np.isfinite(out[j]) else [0, 1], out[j]))
         return out
 
     def pdf(self, x):
@@ -623,8 +627,60 @@ class ScriptedRandom:
         return u[0] / u[1]
 
 
+NOFX = 2147000000
 RUN_DEF = dict(ev="", i=[], fin=True, pr=[1, 1], bat=0, rows=[], lk=[1, 1], lz=False, u=[0, 1], mean=[], nsim=0, nout=0,
-               nbat=0, res="ok", exc="")
+               nbat=0, res="ok", exc="", val=NOFX, lpr=NOFX, pc=NOFX, pp=NOFX, prc=NOFX, prp=NOFX, slp=[], opr=[])
+
+
+def oracle_logprior(sc, lats, vec):
+    """prior log density of a parameter vector evaluated directly (scipy for seeded runs; the lattice's
+    rational for scripted runs) - independent of what the sampler stored"""
+    import scipy.stats as ss
+    tot = 0.0
+    for k, v in enumerate(vec):
+        if sc["mode"] == "scripted":
+            i = lats[k].index(v)
+            pr = lats[k].pr[i - 1] if i else Fraction(0)
+            tot += math.log(pr) if pr > 0 else -INF
+        else:
+            lo, hi = sc["support"][k]
+            tot += float(ss.uniform(lo, hi - lo).logpdf(float(v)))
+    return tot
+
+
+_RUNCLS = {}
+
+
+def run_bsl_class():
+    """BSL that records, per MH step, the two log-posteriors entering the ratio (around _get_mh_ratio) and the
+    log-likelihood the gamma sampler returns for the current state (robust runs); behaviour unchanged."""
+    if "cls" in _RUNCLS:
+        return _RUNCLS["cls"]
+    from elfi.methods.inference.bsl import BSL
+
+    class RunBSL(BSL):
+        c20_log = None
+        c20_oracle = None
+
+        def _get_mh_ratio(self):
+            n = self.state["n_samples"]
+            if self.c20_log is not None:
+                self.c20_log.append(("mh", fx0(self.state["logposterior"][n]), fx0(self.state["logposterior"][n - 1]),
+                                     fx0(self.c20_oracle(self.state["params"][n])), fx0(self.c20_oracle(self.state["params"][n - 1]))))
+            return super()._get_mh_ratio()
+
+        def _resolve_gamma_sampler(self, *a, **k):
+            sampler, gamma0 = super()._resolve_gamma_sampler(*a, **k)
+
+            def recording_sampler(*aa, **kk):
+                gamma, ll = sampler(*aa, **kk)
+                if self.c20_log is not None:
+                    self.c20_log.append(("gam", fx0(np.asarray(ll, dtype=float).ravel()[0])))
+                return gamma, ll
+            return recording_sampler, gamma0
+
+    _RUNCLS["cls"] = RunBSL
+    return RunBSL
 
 
 def run_event(**kw):
@@ -640,6 +696,7 @@ def record_run(sc):
     from elfi.methods.inference.bsl import BSL
     from elfi.methods.bsl.pdf_methods import gaussian_syn_likelihood
     scripted = sc["mode"] == "scripted"
+    robust = sc.get("robust")            # None | "mean" | "variance": syn_likelihood_misspec with the gamma sampler
     p = len(sc["ps"])
     tb = bool(sc["tb"])
     log = []
@@ -654,6 +711,7 @@ def record_run(sc):
     for k in range(p):
         elfi.Prior(LogPrior(log, k, lats[k], start[k]), model=m, name="t%d" % (k + 1))
     batch_vals = {}           # batch index -> index vector the simulator received (first row)
+    row_batch = {}            # robust runs: (S1, S2) of a simulated row -> its batch index
     noise = np.random.RandomState(sc.get("noise_seed", 0))
 
     def sim(*ts, batch_size=1, random_state=None, meta=None):
@@ -668,9 +726,15 @@ def record_run(sc):
         ids = (bi * batch_size + np.arange(batch_size)).astype(float)
         if scripted:
             return np.column_stack([ids, ids])
+        if robust:
+            # two noisy summaries; rows are recognised by their exact values
+            y = np.column_stack([sum(cols) + noise.normal(size=batch_size), 0.5 * sum(cols) + noise.normal(size=batch_size)])
+            for r in range(batch_size):
+                row_batch[(float(y[r, 0]), float(y[r, 1]))] = bi
+            return y
         return np.column_stack([ids, sum(cols) + noise.normal(size=batch_size)])
 
-    s = elfi.Simulator(sim, *[m["t%d" % (k + 1)] for k in range(p)], model=m, name="sim", observed=np.array([[0.0, float(sc.get("obs", 0))]]))
+    s = elfi.Simulator(sim, *[m["t%d" % (k + 1)] for k in range(p)], model=m, name="sim", observed=np.array([[float(sc.get("obs1", 0)), float(sc.get("obs", 0))]]))
     s.uses_meta = True
     elfi.Summary(lambda y: y[:, 0], m["sim"], model=m, name="S1")
     elfi.Summary(lambda y: y[:, 1], m["sim"], model=m, name="S2")
@@ -693,10 +757,22 @@ def record_run(sc):
         log.append(("lik", rows, [1, 1], False, fx0(np.asarray(val).ravel()[0])))
         return val
 
+    def robust_lik(ssx, ssy, gamma, adjustment):
+        from elfi.methods.bsl.pdf_methods import syn_likelihood_misspec
+        ssx = np.asarray(ssx, dtype=float)
+        rows = []
+        for r in range(ssx.shape[0]):
+            bi = row_batch.get((float(ssx[r, 0]), float(ssx[r, 1])), -1)
+            rows.append([bi, list(batch_vals.get(bi, [0] * p))])
+        val = syn_likelihood_misspec(ssx, ssy, gamma=gamma, adjustment=adjustment)
+        log.append(("lik", rows, [1, 1], False, fx0(np.asarray(val, dtype=float).ravel()[0])))
+        return val
+
     old_client = elfi.client._client
     res = "ok"
     exc = ""
     chain = []
+    slp, opr = [], []
     nsim = nout = nbat = 0
     try:
         if sc.get("sched") is not None:
@@ -706,7 +782,12 @@ def record_run(sc):
             import elfi.clients.native as native
             elfi.client.set_client(native.Client())
         with time_limit(120), np.errstate(all="ignore"):
-            b = BSL(m, nsr, batch_size=bs, likelihood=lik, seed=sc.get("seed", 1), max_parallel_batches=sc.get("maxpar", 1))
+            RunBSL = run_bsl_class()
+            b = RunBSL(m, nsr, batch_size=bs, likelihood=(partial(robust_lik, adjustment=robust) if robust else lik),
+                       seed=sc.get("seed", 1), max_parallel_batches=sc.get("maxpar", 1))
+            if not scripted:
+                b.c20_log = log
+                b.c20_oracle = lambda vec: oracle_logprior(sc, lats, np.asarray(vec, dtype=float).ravel())
             if scripted:
                 b.random_state = ScriptedRandom(log, lats, sc["props"], sc["us"])
             bound = [bound_row(pp) for pp in sc["ps"]] if tb else None
@@ -718,6 +799,8 @@ def record_run(sc):
         nout = int(len(out.samples[pn[0]]))
         nsim = int(out.n_sim)
         nbat = int(b.state["n_batches"])
+        slp = [fx0(v) for v in np.asarray(b.state["logprior"], dtype=float).ravel()]
+        opr = [fx0(oracle_logprior(sc, lats, full[r])) for r in range(full.shape[0])]
     except Hang:
         res = "hang"
     except tlc.MachineryFailure:
@@ -738,7 +821,7 @@ def record_run(sc):
                 pr = Fraction(1)
                 for k in range(p):
                     pr *= fr(pend[k][3])
-                events.append(run_event(ev="q", i=iv, fin=pr > 0, pr=q(pr)))
+                events.append(run_event(ev="q", i=iv, fin=pr > 0, pr=q(pr), lpr=fx0(sum(pend[k][4] for k in range(p)))))
                 pend = {}
         elif rec[0] == "prop":
             events.append(run_event(ev="prop", mean=rec[1], i=rec[2]))
@@ -747,13 +830,18 @@ def record_run(sc):
         elif rec[0] == "sim":
             events.append(run_event(ev="sim", bat=rec[1], i=rec[2], nsim=rec[3]))
         elif rec[0] == "lik":
-            events.append(run_event(ev="lik", rows=[dict(bat=r[0], i=r[1]) for r in rec[1]], lk=rec[2], lz=rec[3], nsim=rec[4]))
-    events.append(run_event(ev="end", res=res, exc=exc, nsim=nsim, nout=nout, nbat=nbat))
+            events.append(run_event(ev="lik", rows=[dict(bat=r[0], i=r[1]) for r in rec[1]], lk=rec[2], lz=rec[3],
+                                    val=rec[4] if not scripted else NOFX))
+        elif rec[0] == "mh":
+            events.append(run_event(ev="mh", pc=rec[1], pp=rec[2], prc=rec[3], prp=rec[4]))
+        elif rec[0] == "gam":
+            events.append(run_event(ev="gam", val=rec[1]))
+    events.append(run_event(ev="end", res=res, exc=exc, nsim=nsim, nout=nout, nbat=nbat, slp=slp, opr=opr))
     lat_out = []
     if scripted:
         for k in range(p):
             lat_out.append([dict(E=q(e)) for e in lats[k].E])
-    return dict(mode=sc["mode"], n=sc["n"], nsr=nsr, bs=bs, p=p, tb=tb, burn=sc.get("burn_in", 0),
+    return dict(mode=sc["mode"], robust=bool(robust), n=sc["n"], nsr=nsr, bs=bs, p=p, tb=tb, burn=sc.get("burn_in", 0),
                 ps=[dict(ty=pp[0], a=pp[1], b=pp[2]) for pp in sc["ps"]], lat=lat_out, chain=chain, events=events)
 
 
@@ -817,7 +905,7 @@ def run_scenarios(ctx):
                                     us=[[u, 64] for u in us]))
     n_ex = len(out)
     # (2) random scripted runs: every kind, 1-2 parameters, with / without transform, batch splits, parallel batches
-    n_scr = 120 if ctx.quick else 1500
+    n_scr = 100 if ctx.quick else 1500
     for j in range(n_scr):
         p = rnd.choice([1, 1, 2])
         ps = [rnd.choice(RUN_KINDS) for _ in range(p)]
@@ -842,6 +930,24 @@ def run_scenarios(ctx):
                         support=[[0, 4]] * p, start=[rnd.choice([0.5, 2.0, 3.5]) for _ in range(p)], seed=rnd.randint(0, 10 ** 6),
                         sigma=rnd.choice([1.0, 4.0, 9.0]), obs=rnd.choice([1, 2, 3]) * p, noise_seed=rnd.randint(0, 10 ** 6),
                         burn_in=rnd.choice([0, 0, 2]), p_ready=rnd.choice([0.2, 0.5, 0.9]), p_run=rnd.choice([0.0, 0.5, 1.0])))
+    # (4) seeded robust runs: syn_likelihood_misspec ('mean' / 'variance') with its gamma slice sampler, narrow and
+    #     wide uniform priors (log density != 0), proposals that leave the support
+    n_rob = 24 if ctx.quick else 300
+    for j in range(n_rob):
+        p = rnd.choice([1, 1, 2])
+        lo, hi, starts, sig = rnd.choice([(0, 0.25, [0.05, 0.125, 0.2], [0.01, 0.04, 0.25]), (0, 4, [0.5, 2.0, 3.5], [1.0, 4.0, 9.0]),
+                                          (1, 3, [1.5, 2.5], [0.25, 1.0, 4.0]), (-2, 0.5, [-1.0, 0.25], [1.0, 4.0])])
+        tb = rnd.random() < 0.3
+        nsr = rnd.choice([8, 10, 12])
+        bs = rnd.choice([nsr, nsr // 2])
+        maxpar = rnd.choice([1, 2])
+        start = [rnd.choice(starts) for _ in range(p)]
+        ps = [rnd.choice([(0, lo - 1, hi + 1), (1, 0, hi + 1), (2, lo - 1, 0), (3, 0, 0)]) if tb else (3, 0, 0) for _ in range(p)]
+        out.append(dict(kind="run", mode="seeded", robust=rnd.choice(["mean", "variance"]), n=rnd.randint(5, 12), nsr=nsr, bs=bs, maxpar=maxpar,
+                        sched=(rnd.randint(0, 10 ** 6) if (maxpar > 1 or j % 4 == 0) else None), tb=tb, ps=[list(x) for x in ps],
+                        support=[[lo, hi]] * p, start=start, seed=rnd.randint(0, 10 ** 6), sigma=rnd.choice(sig),
+                        obs1=sum(start), obs=0.5 * sum(start), noise_seed=rnd.randint(0, 10 ** 6), burn_in=rnd.choice([0, 0, 2]),
+                        p_ready=rnd.choice([0.2, 0.5, 0.9]), p_run=rnd.choice([0.0, 0.5, 1.0])))
     return out, n_ex
 
 
@@ -857,6 +963,11 @@ def pinned_scenarios():
     lat = [[dict(E=[1, 2], pr=[1, 1], lk=[1, 1]), dict(E=[2, 1], pr=[0, 1], lk=[1, 1]), dict(E=[3, 1], pr=[1, 2], lk=[3, 1])]]
     out.append(dict(kind="run", pin="F18", mode="scripted", n=4, nsr=2, bs=1, maxpar=1, sched=None, burn_in=0, tb=True, ps=[[0, 0, 4]],
                     lat=lat, start=[1], props=[[3], [2], [1]], us=[[2, 64], [2, 64], [44, 64]], p_ready=0.5, p_run=0.5))
+    # robust BSL with a narrow prior Uniform(0, 0.25) and proposals leaving the support: the current side of every ratio
+    # must still be likelihood + log 4 after a rejection without simulation (seeded change C20/1)
+    out.append(dict(kind="run", pin="robust-logprior", mode="seeded", robust="mean", n=12, nsr=10, bs=10, maxpar=1, sched=None, tb=False,
+                    ps=[[3, 0, 0]], support=[[0, 0.25]], start=[0.1], seed=7, sigma=0.04, obs1=0.1, obs=0.05, noise_seed=3, burn_in=0,
+                    p_ready=0.5, p_run=0.5))
     # F21: unbiased estimator, d = 2 (constant offset) and d = 1 (-inf); F32: outside the support; F31: d = 1 crashes
     c2 = dict(x=[[0, 0], [2, 0], [0, 2], [2, 2], [1, 1], [1, 1]], y=[1, 1], s=1, d=2)
     out.append(dict(kind="lik", pin="F21", c=c2, items=[dict(fn="go", W=[], ws=1, shr=False, gam=[1, 1], g=[])]))
@@ -916,24 +1027,32 @@ def classify(sc, tr, v):
     return None
 
 
-def check_scenarios(ctx, scs):
+def check_scenarios(ctx, scs, barrier=None):
+    """record everything (python, one core), then - after `barrier()` (run() waits there for the design-level
+    TLC runs, so that never more than 8 TLC workers are busy) - validate with TLC"""
     by = {"mh": [], "lik": [], "run": []}
     for sc in scs:
         by[sc["kind"]].append(sc)
     specs = {"mh": ("BslMh_Trace", record_mh, 12), "lik": ("SynLik_Trace", record_lik, 250), "run": ("BslRound_Trace", record_run, 60)}
     all_traces = {}
     failed = []
+    rec_time = {}
+    for kind in ("mh", "lik", "run"):
+        if by[kind]:
+            t0 = time.time()
+            all_traces[kind] = [specs[kind][1](sc) for sc in by[kind]]
+            rec_time[kind] = time.time() - t0
+    if barrier is not None:
+        barrier()
     for kind in ("mh", "lik", "run"):
         if not by[kind]:
             continue
         mod, rec, chunk = specs[kind]
-        t0 = time.time()
-        traces = [rec(sc) for sc in by[kind]]
+        traces = all_traces[kind]
         t1 = time.time()
-        all_traces[kind] = traces
         # at most 8 TLC processes (one worker each) at a time
         verdicts = ctx.validate(mod, traces, chunk=max(chunk, -(-len(traces) // 8)), name=kind)
-        ctx.notes.append("%s: %d traces recorded in %.1fs, validated in %.1fs" % (kind, len(traces), t1 - t0, time.time() - t1))
+        ctx.notes.append("%s: %d traces recorded in %.1fs, validated in %.1fs" % (kind, len(traces), rec_time[kind], time.time() - t1))
         for sc, tr, v in zip(by[kind], traces, verdicts):
             evs = tr["events"]
             ctx.trace_events += len(evs)
@@ -1004,11 +1123,13 @@ CONSTANTS
   MaxPar = %d
   Gate = %s
   TestFirst = %s
+  Misspec = %s
+  CopyLp = %s
 %s
 CHECK_DEADLOCK FALSE
 """
 BR_INVS = ["NoSimForRejected", "RoundsAligned", "ChainStep", "RejectedKeepState", "ChainLength", "OneEvalPerPosition",
-           "CurrentParamsDefined", "NeverWaitsOnNothing"]
+           "CurrentParamsDefined", "NeverWaitsOnNothing", "PosteriorOfCurrent", "StoredPriorOfSlot"]
 
 
 def invs(names, prop=None):
@@ -1033,17 +1154,21 @@ def design_runs(ctx):
     runs.append(("MC_SynLik", "sl_neg_f32", sl(5, 1, "0, 1, 3", "0, 5", "1", 0, False, ["UnbiasedSupport"]), False, None))
     runs.append(("MC_SynLik", "sl_neg_invariant", sl(4, 1, "0, 1", "0, 3", "1", 0, True, ["WhiteningInvariant"]), False, None))
     br_act = ["Submit", "GoWait", "Consume", "Finish"]
-    runs.append(("BslRound", "br_n4", BR_CFG % (4, 2, 2, "TRUE", "TRUE", invs(BR_INVS, "Terminates")), True, br_act))
-    runs.append(("BslRound", "br_n5", BR_CFG % (5, 1, 3, "TRUE", "TRUE", invs(BR_INVS, "Terminates")), True, br_act))
-    runs.append(("BslRound", "br_neg_nogate", BR_CFG % (4, 2, 2, "FALSE", "TRUE", invs(["RoundsAligned"])), False, None))
-    runs.append(("BslRound", "br_neg_simfirst", BR_CFG % (4, 2, 2, "TRUE", "FALSE", invs(["NoSimForRejected"])), False, None))
+    runs.append(("BslRound", "br_n4", BR_CFG % (4, 2, 2, "TRUE", "TRUE", "TRUE", "TRUE", invs(BR_INVS, "Terminates")), True, br_act))
+    runs.append(("BslRound", "br_n5", BR_CFG % (5, 1, 3, "TRUE", "TRUE", "FALSE", "TRUE", invs(BR_INVS, "Terminates")), True, br_act))
+    runs.append(("BslRound", "br_neg_nogate", BR_CFG % (4, 2, 2, "FALSE", "TRUE", "TRUE", "TRUE", invs(["RoundsAligned"])), False, None))
+    # robust runs re-read logprior[n-1]: without the copy in the rejecting branch the current side loses its prior;
+    # standard runs never re-read it, so there the PROPERTY survives (only the mechanism invariant breaks)
+    runs.append(("BslRound", "br_neg_nocopylp", BR_CFG % (5, 2, 2, "TRUE", "TRUE", "TRUE", "FALSE", invs(["PosteriorOfCurrent"])), False, None))
+    runs.append(("BslRound", "br_std_nocopylp", BR_CFG % (5, 2, 2, "TRUE", "TRUE", "FALSE", "FALSE", invs(["PosteriorOfCurrent"])), True, br_act))
+    runs.append(("BslRound", "br_neg_simfirst", BR_CFG % (4, 2, 2, "TRUE", "FALSE", "TRUE", "TRUE", invs(["NoSimForRejected"])), False, None))
     if not ctx.quick:
         runs.append(("MC_BslMh", "mh_dim2", MH_CFG % (2, "TRUE", "TRUE", invs(MH_INVS)), True, mh_act))
         runs.append(("MC_SynLik", "sl_d1_big", sl(6, 1, "0, 1, 2, 4", "0, 3", "1, 2", 0, True, SL_INVS), True, ["Whiten"]))
         runs.append(("MC_SynLik", "sl_d2_y", sl(5, 2, "0, 1", "0, 3", "1", 0, True, SL_INVS), True, ["Whiten"]))
         runs.append(("MC_SynLik", "sl_d2_n6", sl(6, 2, "0, 1", "4", "1", 0, True, SL_INVS), True, ["Whiten"]))
-        runs.append(("BslRound", "br_n6", BR_CFG % (6, 3, 3, "TRUE", "TRUE", invs(BR_INVS, "Terminates")), True, br_act))
-        runs.append(("BslRound", "br_n7", BR_CFG % (7, 2, 4, "TRUE", "TRUE", invs(BR_INVS, "Terminates")), True, br_act))
+        runs.append(("BslRound", "br_n6", BR_CFG % (6, 3, 3, "TRUE", "TRUE", "TRUE", "TRUE", invs(BR_INVS, "Terminates")), True, br_act))
+        runs.append(("BslRound", "br_n7", BR_CFG % (7, 2, 4, "TRUE", "TRUE", "FALSE", "TRUE", invs(BR_INVS, "Terminates")), True, br_act))
     return runs
 
 
@@ -1062,12 +1187,14 @@ def run(ctx):
         "b: unbiased (Ghurye-Olkin) incl. support, mean- and variance-adjusted variants (integer gamma) on the same lattice",
         "c: back-transform inverts transform (exact on the lattice, 1e-9 on random points)",
         "d: MH ratio = posterior ratio x Jacobian ratio at the transformed points (rational), accept iff u < min(1, ratio) in scripted runs",
+        "d (robust and standard seeded runs): each side of every MH ratio is likelihood + prior log density of THAT state (candidate: value of its likelihood evaluation + scipy prior; current: value of the last gamma-sampler pass + scipy prior / the posterior it was accepted with), 3e-6, also after rejections without simulation",
         "e: no simulation for proposals outside the prior support; chain bookkeeping (length, copy of the previous state, burn-in, n_sim)"]
     ctx.clauses_not_decided = [
         "a: general covariance matrices off the lattice (no exact log det), d >= 3, shrinkage 'glasso', the semi-parametric likelihood",
         "d: acceptance decisions of seeded runs (only chain[n] in {proposal, previous} is decided there)",
-        "gamma slice samplers of the misspecified variants (only the likelihood value for a given gamma is decided)"]
-    ctx.trusted_base += ["numpy float arithmetic on integer / dyadic data (exactness of the inputs)",
+        "gamma slice samplers of the misspecified variants (the log-likelihood they return for the current state is taken as an oracle field)"]
+    ctx.trusted_base += ["scipy.stats.uniform.logpdf as the prior-density oracle of seeded runs; the gamma sampler's returned log-likelihood",
+                         "numpy float arithmetic on integer / dyadic data (exactness of the inputs)",
                          "harness operations (prior / simulator / likelihood callables, scripted random_state object) log faithfully"]
     ctx.assumptions += ["sampler.random_state may be replaced by a duck-typed object with multivariate_normal / uniform (scripted runs)"]
     # ---- O1
@@ -1078,13 +1205,12 @@ def run(ctx):
         return ctx.tlc(mod, "MC_C20_%s" % name, cfg_text=text, expect_ok=ok, expect_actions=acts, label=name, workers=2,
                        timeout=1500 if ctx.quick else 3000)
     with concurrent.futures.ThreadPoolExecutor(max_workers=4) as ex:
-        for f in [ex.submit(one, r) for r in runs]:
-            f.result()
-    # ---- O3
-    scs = pinned_scenarios() + mh_scenarios(ctx) + lik_scenarios(ctx)
-    rs, n_ex = run_scenarios(ctx)
-    scs += rs
-    traces = check_scenarios(ctx, scs)
+        futs = [ex.submit(one, r) for r in runs]
+        # ---- O3 (recording overlaps with the design-level TLC runs; validation starts after them)
+        scs = pinned_scenarios() + mh_scenarios(ctx) + lik_scenarios(ctx)
+        rs, n_ex = run_scenarios(ctx)
+        scs += rs
+        traces = check_scenarios(ctx, scs, barrier=lambda: [f.result() for f in futs])
     ctx.exhaustive = True
     ctx.notes.append("%d mh traces, %d likelihood data sets, %d runs (%d exhaustive)" %
                      (len(traces.get("mh", [])), len(traces.get("lik", [])), len(traces.get("run", [])), n_ex))
